@@ -346,6 +346,9 @@ def generate(rng, tier):
 
 # ---------------------------------------------------------------- implementation runner
 
+SPIN = 60
+
+
 def run_waiter(wsx, events):
     from pyg_base import waiter
     loop = asyncio.new_event_loop()
@@ -360,11 +363,13 @@ def run_waiter(wsx, events):
         async def main():
             struct = dec_w(wsx, mk)
             task = asyncio.ensure_future(waiter(struct))
-            for _ in range(12):
+            # let the loop run until everything that can finish has finished: a nested gather needs about three
+            # iterations per level (task start, child completion callbacks, wake-up), depth <= 5 here
+            for _ in range(SPIN):
                 await asyncio.sleep(0)
             for i, v in events:
                 futs[i].set_result(v)
-                for _ in range(12):
+                for _ in range(SPIN):
                     await asyncio.sleep(0)
             if task.done():
                 return True, task.result()
